@@ -37,6 +37,10 @@ FUNCTIONS = [
     "autoarray.inversion.inversion.abstract.AbstractInversion.regularization_matrix",
     "autoarray.inversion.inversion.abstract.AbstractInversion.regularization_matrix_reduced",
     "autoarray.inversion.inversion.abstract.AbstractInversion.no_regularization_index_list",
+    "autoarray.preloads.Preloads.set_regularization_matrix_and_term",
+    "autoarray.inversion.inversion.factory.inversion_from",
+    "autoarray.inversion.inversion.factory.inversion_imaging_from",
+    "autoarray.inversion.inversion.factory.inversion_interferometer_from",
     "autoarray.inversion.regularization.gaussian_kernel.gauss_cov_matrix_from",
     "autoarray.inversion.regularization.gaussian_kernel.GaussianKernel.regularization_matrix_from",
     "autoarray.inversion.regularization.exponential_kernel.exp_cov_matrix_from",
@@ -815,10 +819,37 @@ def case_split(ctx, mesh, scheme, weights_mode, pd=False):
 
 # ------------------------------------------------------------------------------------------------ level I: block placement in the inversion
 
-BLOCK_SIZE = {"S2": 2, "S3": 3, "N1": 1, "N2": 2, "C": 9, "F3": 3}
+BLOCK_SIZE = {"S2": 2, "S3": 3, "N1": 1, "N2": 2, "C": 9, "F3": 3, "G2": 2}
 
 
-def body_blocks(inp, seq):
+def _make_inversion(objs, variant):
+    """the inversion object the user observes: plain AbstractInversion (mock carrier); the same given Preloads filled by the public
+    Preloads.set_regularization_matrix_and_term from two identical inversions; or built by the aa.Inversion factory for an imaging /
+    an interferometer (visibilities) dataset with use_w_tilde=False, use_linear_operators=False"""
+    import autoarray as aa
+    from types import SimpleNamespace
+    if variant == "plain":
+        return aa.m.MockInversion(linear_obj_list=objs)
+    if variant == "preloads":
+        # the log-det term the setter compares is supplied concretely (it needs LAPACK on a concrete matrix); what is preloaded is
+        # whatever the setter takes from the first inversion
+        inv_0 = aa.m.MockInversion(linear_obj_list=objs, log_det_regularization_matrix_term=1.0)
+        inv_1 = aa.m.MockInversion(linear_obj_list=objs, log_det_regularization_matrix_term=1.0)
+        preloads = aa.Preloads()
+        preloads.set_regularization_matrix_and_term(fit_0=SimpleNamespace(inversion=inv_0), fit_1=SimpleNamespace(inversion=inv_1))
+        return aa.m.MockInversion(linear_obj_list=objs, preloads=preloads)
+    settings = aa.SettingsInversion(use_w_tilde=False, use_linear_operators=False)
+    if variant == "imaging":
+        mask = aa.Mask2D.all_false(shape_native=(IMG, IMG), pixel_scales=1.0)
+        dataset = aa.DatasetInterface(data=aa.Array2D(values=np.ones((IMG, IMG)), mask=mask),
+                                      noise_map=aa.Array2D(values=np.ones((IMG, IMG)), mask=mask), convolver=None)
+    else:
+        dataset = aa.DatasetInterface(data=aa.Visibilities(visibilities=[1 + 1j, 2 - 1j, 0.5 + 0j, 1 + 2j]),
+                                      noise_map=aa.VisibilitiesNoiseMap(visibilities=[1 + 1j] * 4), transformer=None)
+    return aa.Inversion(dataset=dataset, linear_obj_list=objs, settings=settings)
+
+
+def body_blocks(inp, seq, variant="plain"):
     """inversion.regularization_matrix / regularization_matrix_reduced for a sequence of linear objects:
     S<k>: regularized, arbitrary symbolic k x k matrix;  N<k>: k parameters, no regularization;  C: real rectangular 3x3 mapper + Constant;
     F3: linear function list with 3 parameters + Constant"""
@@ -833,6 +864,9 @@ def body_blocks(inp, seq):
             blocks.append((True, B))
         elif kind[0] == "N":
             objs.append(aa.m.MockLinearObj(parameters=k, regularization=None))
+            blocks.append((False, np.zeros((k, k))))
+        elif kind == "G2":
+            objs.append(aa.m.MockLinearObjFuncList(parameters=k, regularization=None))
             blocks.append((False, np.zeros((k, k))))
         else:
             c = inp["c%d" % pos]
@@ -857,7 +891,11 @@ def body_blocks(inp, seq):
         k = b.shape[0]
         red[o:o + k, o:o + k] = b
         o += k
-    inv = aa.m.MockInversion(linear_obj_list=objs)
+    inv = hx.attempt(_make_inversion, objs, variant)
+    if isinstance(inv, hx.Raised):
+        A["inversion.built"] = repr(inv) + " " + inv.msg
+        E["inversion.built"] = "ok"
+        return A, E
     for pos, obj in enumerate(objs):
         if not blocks[pos][0]:
             A["obj%d.zero_block" % pos] = hx.attempt(lambda: np.asarray(obj.regularization_matrix))
@@ -867,7 +905,7 @@ def body_blocks(inp, seq):
     E["full.shape"] = [total, total]
     A["full.entries"] = Hf
     E["full.entries"] = full
-    inv2 = aa.m.MockInversion(linear_obj_list=objs)
+    inv2 = hx.attempt(_make_inversion, objs, variant)
     Hr = hx.attempt(lambda: np.asarray(inv2.regularization_matrix_reduced))
     A["reduced.shape"] = list(Hr.shape) if not isinstance(Hr, hx.Raised) else repr(Hr)
     E["reduced.shape"] = [tr, tr]
@@ -877,7 +915,7 @@ def body_blocks(inp, seq):
     return A, E
 
 
-def case_blocks(ctx, seq):
+def case_blocks(ctx, seq, variant="plain"):
     inputs = {}
     for pos, kind in enumerate(seq):
         k = BLOCK_SIZE[kind]
@@ -889,7 +927,8 @@ def case_blocks(ctx, seq):
     if not inputs:
         # nothing symbolic in an all-unregularized sequence: give the solver the (trivial) placement question anyway
         inputs["unused"] = V.real("unused")
-    run(ctx, body_blocks, inputs, {"seq": seq})
+    ctx.set_case(seq=str(seq), variant=variant)
+    run(ctx, body_blocks, inputs, {"seq": seq, "variant": variant})
 
 
 # ------------------------------------------------------------------------------------------------ level H: histories on one linear object
@@ -1178,6 +1217,12 @@ def cases(tier):
         seqs += [["C", "C"], ["C", "N2", "C"], ["N1", "C", "S3", "N2"], ["F3", "C", "N1", "F3"]]
     for s in seqs:
         out.append(("case_blocks", {"seq": s}))
+    # public variants of how the inversion comes into being: preloads filled by the public setter, aa.Inversion factory for imaging and
+    # interferometer datasets; sequences mix a real mapper with regularized / unregularized function lists in every order
+    vseqs = [["C"], ["C", "G2"], ["G2", "C"], ["F3", "C", "G2"], ["G2", "C", "F3"], ["C", "G2", "C"]] + ([] if q else [["C", "F3"], ["G2", "F3", "C", "G2"]])
+    for variant in ("preloads", "imaging", "interferometer"):
+        for s in vseqs:
+            out.append(("case_blocks", {"seq": s, "variant": variant}))
     # histories on one linear object
     for m in [["rect", 3, 3], ["chain", 3]] + ([] if q else [["del", "D6"], ["rect", 3, 4]]):
         for change in ("none", "add", "replace", "coefficient"):
